@@ -273,6 +273,24 @@ def reader_ticks(prog, rep):
                         rep.ob(rule, "absolute tick accepted only if greater than the previous", ok,
                                "the `previous >= t` edge cannot reach current_tick = Some(t)", b.loc(st.get("ln")))
     rep.floor(rule, n, 2, "stores to current_tick")
+    # every tick chunk handed to the caller has become the reader's current tick: no path reaches the construction of
+    # RawChunk::Tick without a store to current_tick (a later absolute marker that is returned but not remembered makes the
+    # following inline deltas count from a stale base)
+    stores = set()
+    for bi in sorted(b.live):
+        for si, st in enumerate(b.blocks[bi]["st"]):
+            if st["k"] == "assign" and st["p"].get("pr"):
+                pe = ir.place(st["p"], (bi, si))
+                if ir.access_path(pe)[1] == ("current_tick",):
+                    stores.add(bi)
+    ticks = [bi for bi in sorted(b.live) for st in b.blocks[bi]["st"]
+             if st["k"] == "assign" and st["r"]["k"] == "agg" and (st["r"].get("adt") or "").endswith("RawChunk") and st["r"].get("variant") == "Tick"]
+    rep.floor(rule, len(ticks), 2, "constructions of RawChunk::Tick in read_chunk")
+    reach = b.reachable_from(0, removed_blocks=frozenset(stores))
+    bad = [t_ for t_ in ticks if t_ in reach and t_ not in stores]
+    rep.ob(rule, "a returned tick is the remembered tick", not bad,
+           "every RawChunk::Tick is built after current_tick was updated" if not bad else
+           "read_chunk can return a tick without storing it in current_tick: later inline deltas are relative to a stale tick", b.loc())
 
 
 def refused_is_inert(prog, rep):
